@@ -60,4 +60,34 @@ __CPROVER_ensures(RET == NULL || (gh_dup_len <= n && __CPROVER_is_fresh(RET, gh_
                   && (gh_dup_len < n ==> s[gh_dup_len < n ? gh_dup_len : 0] == 0)
                   && (gh_w < gh_dup_len ==> (RET[gh_w < gh_dup_len ? gh_w : 0] == s[gh_w < gh_dup_len ? gh_w : 0] && RET[gh_w < gh_dup_len ? gh_w : 0] != 0))))
 ;
+
+/* ---- text -> number conversions of libc --------------------------------------------------------
+ * ASSUMED: strtol/strtoul/strtoll/strtoull/strtof/strtod convert the longest valid prefix at nptr (correctly rounded for the
+ * floating-point ones) and set *endptr to the first unused character, in nptr's object.  Observed through ghosts: which
+ * function was called (gh_cv_kind), with which base, what it returned (bit pattern) and how many characters it used.
+ * The text must be NUL-bounded (CV_TEXT); see contracts/param.h for how far that is tracked. */
+extern unsigned gh_cv_calls; extern int gh_cv_kind, gh_cv_base; extern unsigned long long gh_cv_bits; extern size_t gh_cv_used; extern float gh_cv_f; extern double gh_cv_d;
+/* the text: NUL-bounded (witness gh_nul, relative to nptr); a conversion never uses the NUL itself */
+#define CV_TEXT(p) (gh_nul <= 4096 && __CPROVER_r_ok((p), gh_nul + 1) && (p)[gh_nul] == 0)
+#define CV_STRTOL 1
+#define CV_STRTOUL 2
+#define CV_STRTOLL 3
+#define CV_STRTOULL 4
+#define CV_STRTOF 5
+#define CV_STRTOD 6
+#define CV_FRAME *endptr, gh_cv_calls, gh_cv_kind, gh_cv_base, gh_cv_bits, gh_cv_used, gh_cv_f, gh_cv_d
+#define CV_COMMON(K) __CPROVER_ensures(gh_cv_calls == OLD(gh_cv_calls) + 1 && gh_cv_kind == (K) && __CPROVER_same_object(*endptr, nptr) && OFF(*endptr) == OFF(nptr) + (long) gh_cv_used && gh_cv_used <= gh_nul)
+#define CV_INT(T, name, K) T name(const char *nptr, char **endptr, int base) \
+__CPROVER_requires(CV_TEXT(nptr) && __CPROVER_is_fresh(endptr, sizeof(*endptr))) \
+__CPROVER_assigns(CV_FRAME) CV_COMMON(K) __CPROVER_ensures(gh_cv_base == base && gh_cv_bits == (unsigned long long) RET) ;
+CV_INT(long, strtol, CV_STRTOL)
+CV_INT(unsigned long, strtoul, CV_STRTOUL)
+CV_INT(long long, strtoll, CV_STRTOLL)
+CV_INT(unsigned long long, strtoull, CV_STRTOULL)
+float strtof(const char *nptr, char **endptr)
+__CPROVER_requires(CV_TEXT(nptr) && __CPROVER_is_fresh(endptr, sizeof(*endptr)))
+__CPROVER_assigns(CV_FRAME) CV_COMMON(CV_STRTOF) __CPROVER_ensures(gh_cv_f == RET || (RET != RET && gh_cv_f != gh_cv_f)) ;
+double strtod(const char *nptr, char **endptr)
+__CPROVER_requires(CV_TEXT(nptr) && __CPROVER_is_fresh(endptr, sizeof(*endptr)))
+__CPROVER_assigns(CV_FRAME) CV_COMMON(CV_STRTOD) __CPROVER_ensures(gh_cv_d == RET || (RET != RET && gh_cv_d != gh_cv_d)) ;
 #endif
